@@ -364,16 +364,103 @@ def run_spec(sp):
                     if fr is not None and abs(took - a * fr) > 1e-6 * abs(a) + 1e-9:
                         vs.append(V(f"create_solution | non-uniform-aliquot | {feat}",
                                     f"{call}: solute inside the solvent container was not drawn with the common fraction", case))
+    # ---- what is returned besides the amounts: the new vessel carries the requested name, the residual is the solvent vessel
+    if not vs and (sol.name != 'N' or (is_c and (residual.name != solvent.name or residual.max_volume != solvent.max_volume))):
+        vs.append(V(f"create_solution | identity-changed | {feat}",
+                    f"{call}: returned {sol.name!r}" + (f" and residual {residual.name!r} (capacity {residual.max_volume!r}), the "
+                                                        f"solvent vessel was {solvent.name!r} ({solvent.max_volume!r})" if is_c else ''),
+                    case))
+    # ---- the same request as a recipe step: same vessels ----------------------------------------------------------------
+    if not vs:
+        from .. import e2
+        env.clear_caches(pp)
+        try:
+            r = pp.Recipe()
+            if is_c:
+                r.uses(solvent)
+            r.create_solution(solutes if len(solutes) > 1 else solutes[0], solvent, 'N',
+                              **{k: (list(v) if isinstance(v, list) else v) for k, v in kw.items()})
+            baked = r.bake()
+            d = e2.same_object(pp, baked['N'], sol) or (is_c and e2.same_object(pp, baked[solvent.name], residual)) or \
+                (sorted(baked) != sorted(['N'] + ([solvent.name] if is_c else [])) and f"keys {sorted(baked)}")
+            if d:
+                vs.append(V(f"create_solution | recipe-differs-from-direct | {feat}",
+                            f"{call} as a recipe step: the baked result differs from the direct call: {d}", case))
+        except Exception as e:  # noqa
+            vs.append(V(f"create_solution | recipe-differs-from-direct | {feat},raises={type(e).__name__}",
+                        f"{call} returns when called directly, as a recipe step it raises {type(e).__name__}: {e}", case,
+                        'returns', type(e).__name__))
+        return vs, (expect, 'returned', 'recipe')
     return vs, (expect, 'returned')
+
+
+# ---- argument shapes: exactly one value per solute, exactly two of the three keywords -------------------------------------
+def shape_cases():
+    vals = {'concentration': ['0.1 M', '0.05 M', '0.02 M'], 'quantity': ['50 mg', '20 mg', '10 mg']}
+    out = []
+    for solutes in (['nacl'], ['nacl', 'na2so4']):
+        n = len(solutes)
+        for form in ('list', 'scalar') if n == 1 else ('list',):
+            for solvent in ('water', 'W1'):
+                for key, other in (('concentration', {'total_quantity': '20 mL'}), ('quantity', {'total_quantity': '20 mL'}),
+                                   ('quantity', {'concentration': '0.1 M'}), ('concentration', {'quantity': '50 mg'})):
+                    for m in (n - 1, n, n + 1):
+                        if m == 0:
+                            continue
+                        kw = dict(other)
+                        kw[key] = vals[key][:m]
+                        # a list with one value per solute is the documented form; one value too few or too many is not a
+                        # specification. (A scalar next to it is broadcast - part of the main grammar.)
+                        out.append({'solutes': solutes, 'form': form, 'solvent': solvent, 'kw': kw,
+                                    'expect': 'accept' if m == n else 'refuse', 'tag': f"{key}-list-of-{m}-for-{n}"})
+                # which-two-of-three
+                for kw, tag in (({'concentration': '0.1 M'}, 'one-of-three'), ({'total_quantity': '20 mL'}, 'one-of-three'),
+                                ({}, 'none-of-three'),
+                                ({'concentration': '0.1 M', 'quantity': '50 mg', 'total_quantity': '20 mL'}, 'three-of-three')):
+                    out.append({'solutes': solutes, 'form': form, 'solvent': solvent, 'kw': kw, 'expect': 'refuse', 'tag': tag})
+    return out
+
+
+def run_shape(sc):
+    pp, vidx = _G['pp'], _G['vidx']
+    subs = e1.substances(pp, vidx)
+    solutes = [subs[n] for n in sc['solutes']]
+    if sc['solvent'] in CONTAINERS:
+        solvent = pp.Container(sc['solvent'], initial_contents=[(subs[n], q) for n, q in CONTAINERS[sc['solvent']]])
+    else:
+        solvent = subs[sc['solvent']]
+    kw = {k: (list(v) if isinstance(v, list) else v) for k, v in sc['kw'].items()}
+    arg = solutes[0] if sc['form'] == 'scalar' else solutes
+    case = {'vidx': vidx, 'shape': sc}
+    call = f"create_solution({sc['solutes'] if sc['form'] == 'list' else sc['solutes'][0]}, {sc['solvent']}, {sc['kw']})"
+    feat = f"shape,{sc['tag']},solutes={sc['form']}"
+    env.clear_caches(pp)
+    try:
+        pp.Container.create_solution(arg, solvent, 'N', **kw)
+        outcome = 'returned'
+    except (ValueError, TypeError) as e:
+        outcome = 'refused'
+    except Exception as e:  # noqa
+        return [V(f"create_solution | wrong-exception | {feat}", f"{call} raised {type(e).__name__}: {e}", case)], (sc['tag'], 'crash')
+    if sc['expect'] == 'refuse' and outcome == 'returned':
+        return [V(f"create_solution | accepted-malformed | {feat}", f"{call} must be refused (not one value per solute / not two of "
+                  f"the three keywords) but returned", case, 'ValueError', 'returned')], (sc['tag'], outcome)
+    if sc['expect'] == 'accept' and outcome == 'refused' and 'quantity' in sc['kw'] and 'concentration' in sc['kw']:
+        return [], (sc['tag'], 'refused-overdetermined')      # concentration and quantity of every solute: may be inconsistent
+    if sc['expect'] == 'accept' and outcome == 'refused':
+        return [V(f"create_solution | refused-feasible | {feat}", f"{call} is well-formed and feasible but was refused", case,
+                  'returns', 'refused')], (sc['tag'], outcome)
+    return [], (sc['tag'], outcome)
 
 
 def run(col):
     pp = env.load()
     col.rule = ("complete specification grammar: 6 solute lists x 5 solvents (2 substances, 3 containers) x 4 feasibility levels x "
                 "which-two-of-three x every concentration spelling / quantity unit / total unit of the solute kind, + broadcast, "
-                "inconsistent over-determined and wrong-kind families; each spec is derived from a reference mixture by the "
+                "inconsistent over-determined, wrong-kind and argument-shape (one value per solute, two of three keywords) families; each spec is derived from a reference mixture by the "
                 "exact-rational model, classified by an exact linear solve (accept / refuse / don't-care) and the returned "
-                "solution is checked against every stated constraint by definition. Non-trivial = distinct (solvent form, "
+                "solution is checked against every stated constraint by definition; every accepted request is made a second time as a "
+                "recipe step and must bake to the same vessels. Non-trivial = distinct (solvent form, "
                 "#solutes, mode, mass-based, expectation, outcome, level) classes")
     col.assumptions += ["a solvent container that already holds the solute makes 'solute quantity/concentration' ambiguous: "
                         "only total, aliquot and conservation are judged there",
@@ -391,9 +478,24 @@ def run(col):
             col.add(vs)
             classes.add((feature(sp), sp['level'], oc))
             dc += oc[0] == 'dontcare'
+        scs = shape_cases()
+        sres = par.pmap(run_shape, scs)
+        for vs, oc in sres:
+            col.add(vs)
+            classes.add(('shape',) + oc)
+        col.count('transitions', len(scs))
+        col.count('traces', len(scs))
+        col.count('evaluations', len(scs))
+        col.cov.setdefault('argument_shapes', []).append({'valuation': v, 'cases': len(scs),
+                                                          'refused': sum(oc[1] == 'refused' for _, oc in sres)})
         col.count('transitions', len(sps))
         col.count('traces', len(sps))
         col.count('evaluations', len(sps))
+        n_recipe = sum(1 for _, oc in res if oc[-1] == 'recipe')
+        col.count('transitions', n_recipe)
+        col.count('traces', n_recipe)
+        col.count('evaluations', n_recipe)
+        col.count('recipe_variants', n_recipe)
         col.count('states', len(classes))
         col.count('dont_care', dc)
         col.note_nontrivial({report.digest((v, c)) for c in classes})
@@ -407,4 +509,6 @@ def run(col):
 def replay(case):
     pp = env.load()
     _G.update(pp=pp, vidx=case['vidx'])
+    if 'shape' in case:
+        return run_shape(case['shape'])[0]
     return run_spec(case['spec'])[0]
